@@ -84,7 +84,7 @@ func change(outs []sn.Out, to string, total *big.Int, spent int64) []sn.Out {
 
 // Build prepares the node (setup block with the account, its funding and the contract's
 // funds) and the accepted corpus. gas > 0 makes the chain charge for resources.
-func Build(cfg sn.Config) (*World, error) { return BuildOpt(cfg, 1) }
+func Build(cfg sn.Config) (*World, error) { return BuildOpt(cfg, 7) }
 
 // BuildOpt is Build with the contract's funds split into `coins` outputs (a pre-execution
 // locks the contract outputs it selects for a long time).
@@ -242,6 +242,19 @@ func buildOpt(cfg sn.Config, coins int) (*World, error) {
 			outs = append(outs, sn.Out{To: string(o.ToAddr), Raw: o.Amount, Frozen: o.FrozenHeight})
 		}
 		add("contract-originated-transfer", sn.TxSpec{Initiator: k1.Address, Signers: []*sn.Key{k1}, Inputs: res.UtxoInputs, Outputs: outs,
+			InExt: res.Inputs, OutExt: res.Outputs, Requests: res.Requests})
+	}
+	{ // the contract pays the SAME amount to the same receiver twice, and a third party once
+		p := (&sn.ProgBuilder{}).Transfer(sn.VerifContract, k2.Address, "15").Transfer(sn.VerifContract, k2.Address, "15").Transfer(sn.VerifContract, k3.Address, "4").Put("vb0", []byte("paid2"), []byte("34"))
+		res, err := n.PreExec([]*protos.InvokeRequest{sn.VerifReq(sn.VerifContract, p.String())}, k2.Address, []string{k2.Address})
+		if err != nil {
+			return nil, fmt.Errorf("preexec repeated contract transfer: %v", err)
+		}
+		var outs []sn.Out
+		for _, o := range res.UtxoOutputs {
+			outs = append(outs, sn.Out{To: string(o.ToAddr), Raw: o.Amount, Frozen: o.FrozenHeight})
+		}
+		add("contract-originated-transfer-repeated", sn.TxSpec{Initiator: k2.Address, Signers: []*sn.Key{k2}, Inputs: res.UtxoInputs, Outputs: outs,
 			InExt: res.Inputs, OutExt: res.Outputs, Requests: res.Requests})
 	}
 	return w, nil
